@@ -21,7 +21,7 @@ for p in $LIST; do
   except=$(grep -m1 '^# except:' /verif/$p | sed 's/^# except: *//; s/(.*//')
   for id in ${CHECKS:-C01 C02 C03 C04 C05 C06 C07 C08 C09 C10 C11 C12 C13 C14 C15 C16 C17 C18 C19 C20}; do
     case " $except " in *" $id "*) echo "$p: $id skipped (listed as excepted in the patch header)"; continue ;; esac
-    out=$(VERIF_REPO=$WT VERIF_BUILD=$WT.build VERIF_NO_EVIDENCE=1 timeout 1800 ./check $id --tier $TIER 2>/dev/null); e=$?
+    out=$(cd ${VERIF_HOME:-/verif} && VERIF_REPO=$WT VERIF_BUILD=$WT.build VERIF_NO_EVIDENCE=1 timeout 1800 ./check $id --tier $TIER 2>/dev/null); e=$?
     if [ $e -ne 0 ] || echo "$out" | grep -q "^VIOLATION"; then echo "$p: check $id exit=$e :: $(echo "$out" | grep -E 'VIOLATION|INTERNAL' | head -2 | cut -c1-250)"; rc=1; fi
   done
   echo "$p: done"
